@@ -266,10 +266,16 @@ impl PreferenceManager {
             Ok(rules_dir) =>  rules_dir,
         };
 
+        // if this fails, the old directory and the preferences read from it remain in effect
+        let old_rules_dir = self.rules_dir.clone();
+        let old_sys_prefs_file = self.sys_prefs_file.clone();
         self.set_rules_dir(&rules_dir)?;
-        self.set_preference_files()?;
-        self.set_all_files(&rules_dir)?;
-        return Ok( () );
+        let result = self.set_preference_files().and_then(|_| self.set_all_files(&rules_dir));
+        if result.is_err() {
+            self.rules_dir = old_rules_dir;
+            self.sys_prefs_file = old_sys_prefs_file;
+        }
+        return result;
     }
 
 
